@@ -107,6 +107,12 @@ fn check_update(ctx: &mut Ctx, fam: &str, gd: &GradientDescent, params: &mut Vec
                 }
             }
         }
+        // "... and clears gradients": the step consumed g - a clone of the old parameter kept by the caller (a
+        // checkpoint) does not carry it into a later restore
+        if p.grad.is_some() && p.old_clone.gradient().is_some() {
+            ctx.violation(&format!("C13|{}|gradient-not-consumed", fam), format!("parameter {} was stepped, but a clone of it taken before the update still holds the gradient that was applied\n{}", i, desc));
+            ok = false;
+        }
         // the array the handle pointed to before is untouched (older clones stay intact)
         if p.old_clone.dimensions() != &p.dims[..] || p.old_clone.values().iter().map(|x| x.to_bits()).ne(p.old.iter().map(|x| x.to_bits())) {
             ctx.violation(&format!("C13|{}|old-handle-changed", fam), format!("a clone of parameter {} taken before the update changed\n{}", i, desc));
